@@ -4,16 +4,27 @@
     Z, positive, nat stay the extracted inductives. *)
 From Coq Require Import ZArith List String.
 From Coq Require Import ExtrOcamlBasic ExtrOcamlString.
-From TV Require Import Layout.Types gen.Tables gen.Pinned Model.Monad Model.Ints Model.Decoder Model.Message Model.Pump Model.Show.
+From TV Require Import Layout.Types gen.Tables gen.Pinned Model.Monad Model.Ints Model.Decoder Model.Message Model.Pump Model.Show Spec.Value Spec.Message.
 
 Definition tables_current : tables := Tables.T.
 Definition tables_pinned : tables := Pinned.T.
 Definition prims_current : list prim := Tables.all_prims.
 Definition prims_pinned : list prim := Pinned.all_prims.
 
+(** the specification, rendered like a decode result: expected events + ACC, or the expected value error *)
+Definition run_spec (T : tables) (r : root) (input : list Z) : string :=
+  match spec_events T r input with
+  | Some evs => show_result (evs, OAccepted)
+  | None =>
+      match spec_value_error T r input with
+      | Some res => show_result res
+      | None => "NOTWF"%string
+      end
+  end.
+
 Extraction "Extract/model.ml"
   tables_current tables_pinned prims_current prims_pinned
-  run_decode run_obj find_type
+  run_decode run_obj run_spec find_type
   prim_text prim_bytes valid representable pname pwidth psigned pkind_
   hex2 dec_string show_hex_
   RType RCommand RResponse RStream.
